@@ -6,6 +6,7 @@
 #include <fcntl.h>
 #include <sys/mman.h>
 #include <unistd.h>
+#include <fstream>
 #include <sstream>
 
 #include <nop/serializer.h>
@@ -166,14 +167,15 @@ struct LogWriter {
 };
 
 // ---- reader box ------------------------------------------------------------------------------
-enum RK : int { R_Buf, R_Ped, R_Str, R_Fd, R_Log, R_BBuf, R_BPed, R_BStr, R_BLog, R_COUNT };
-inline const char* rk_name(int k) { static const char* n[] = {"BufferReader", "PedanticBufferReader", "StreamReader", "FdReader", "LogReader", "Bounded<BufferReader>", "Bounded<PedanticBufferReader>", "Bounded<StreamReader>", "Bounded<LogReader>"}; return k >= 0 && k < R_COUNT ? n[k] : "?"; }
-inline bool rk_bounded(int k) { return k >= R_BBuf; }
+enum RK : int { R_Buf, R_Ped, R_Str, R_Fd, R_Log, R_BBuf, R_BPed, R_BStr, R_BLog, R_FStr, R_COUNT };
+inline const char* rk_name(int k) { static const char* n[] = {"BufferReader", "PedanticBufferReader", "StreamReader", "FdReader", "LogReader", "Bounded<BufferReader>", "Bounded<PedanticBufferReader>", "Bounded<StreamReader>", "Bounded<LogReader>", "StreamReader<ifstream>"}; return k >= 0 && k < R_COUNT ? n[k] : "?"; }
+inline bool rk_bounded(int k) { return k >= R_BBuf && k <= R_BLog; }
 inline bool rk_has_handles(int k) { return k == R_Log || k == R_BLog; }
 inline bool rk_has_skip(int k) { return k != R_Fd; }
 
 using SStreamReader = nop::StreamReader<std::stringstream>;
 using SStreamWriter = nop::StreamWriter<std::stringstream>;
+using FStreamReader = nop::StreamReader<std::ifstream>;
 
 inline int make_memfd(const uint8_t* p, size_t n) {
   int fd = memfd_create("vk", 0);
@@ -193,6 +195,8 @@ struct ReaderBox {
   std::unique_ptr<SStreamReader> str;
   std::unique_ptr<nop::FdReader> fd;
   int fdnum = -1;
+  std::unique_ptr<FStreamReader> fstr;   // std::ifstream over a memfd (file streams accept seeks past EOF)
+  int fstr_fd = -1;
   LogReader log;
   nop::BoundedReader<nop::BufferReader> bbuf;
   nop::BoundedReader<nop::PedanticBufferReader> bped;
@@ -217,8 +221,15 @@ struct ReaderBox {
       case R_BPed: ped = nop::PedanticBufferReader(mem.get(), len); bped = nop::BoundedReader<nop::PedanticBufferReader>(&ped, limit); break;
       case R_BStr: str.reset(new SStreamReader(std::string((const char*)mem.get(), len))); bstr = nop::BoundedReader<SStreamReader>(str.get(), limit); break;
       case R_BLog: log = LogReader(); log.data = mem.get(); log.n = len; blog = nop::BoundedReader<LogReader>(&log, limit); break;
+      case R_FStr: {
+        if (fstr_fd >= 0) ::close(fstr_fd);
+        fstr_fd = make_memfd(mem.get(), len);
+        char path[64]; snprintf(path, sizeof path, "/proc/self/fd/%d", fstr_fd);
+        fstr.reset(new FStreamReader(path, std::ios::in | std::ios::binary));
+        break; }
     }
   }
+  ~ReaderBox() { fstr.reset(); if (fstr_fd >= 0) ::close(fstr_fd); }
   void open(int k, const Bytes& b, size_t lim = SIZE_MAX) { open(k, b.data(), b.size(), lim); }
   // Bytes consumed from the underlying source so far.
   size_t position() {
@@ -228,6 +239,7 @@ struct ReaderBox {
       case R_Str: case R_BStr: { auto p = str->stream().rdbuf()->pubseekoff(0, std::ios_base::cur, std::ios_base::in); return p < 0 ? SIZE_MAX : (size_t)p; }
       case R_Fd: return (size_t)lseek(fdnum, 0, SEEK_CUR);
       case R_Log: case R_BLog: return log.pos;
+      case R_FStr: { auto p = fstr->stream().rdbuf()->pubseekoff(0, std::ios_base::cur, std::ios_base::in); return p < 0 ? SIZE_MAX : (size_t)p; }
     }
     return 0;
   }
